@@ -413,7 +413,15 @@ pub fn run(seed: u64, run: u64) -> Report {
 /// Shrinks the program (dropping statements while it stays accepted and the same
 /// oracle fires) and the environment list (down to one differing pair).
 fn minimise(ast: &gen::ProgramAst, layout: &Layout, scn: &Scenario, pc: Option<&ProcCfg>) -> Scenario {
-    let fails = |s: &Scenario| compare(s, pc).0.is_some();
+    // bounded effort: large modules have hundreds of statements
+    let budget = std::cell::Cell::new(400usize);
+    let fails = |s: &Scenario| {
+        if budget.get() == 0 {
+            return false;
+        }
+        budget.set(budget.get() - 1);
+        compare(s, pc).0.is_some()
+    };
     let mut cur = scn.clone();
     // 1. environments: find one failing pair
     'pair: for i in 0..scn.envs.len() {
